@@ -6,8 +6,7 @@ CHECK = {
     "reset_ops": ["auth.new"],
     "timeout": {"quick": 300, "thorough": 2400},
     "rule": "real AuthFirstPacket and dispatchConnection (in-memory conns, real bbolt store) on: genuine first packets x {TLS chrome/firefox/safari, WebSocket} with "
-            "single bits flipped (quick: first 160 bytes + key-share/hidden region + 300 random bits per flavour; thorough: every bit of the firefox hello and of the WebSocket GET, "
-            "3000 random bits of the others), random multi-byte edits (overwrite/truncate/insert/delete), server clock at ts +-{179 s, 180 s-1 ns, 180 s, 180 s+1 ns, 181 s} and 0, +-1 ns, "
+            "single bits flipped (quick: first 160 bytes + key-share/hidden region + 300 random bits per flavour; thorough: every bit of all four), random multi-byte edits (overwrite/truncate/insert/delete), server clock at ts +-{179 s, 180 s-1 ns, 180 s, 180 s+1 ns, 181 s} and 0, +-1 ns, "
             "wrong server key, unknown UID, zero/negative credit, expiry = now-1 / now, session cap 0/1, credit withdrawn while active, unknown/case-changed/12-byte/empty method, "
             "encryption methods 0..5,128,255, admin UID x sid {0,7}, other UIDs with sid 0, no admin configured, replay, truncated / oversize / foreign framing. "
             "non-trivial = the packet differs from a genuine one or the server state is not the default; distinct by (flavour, bit | edit | case)",
